@@ -30,13 +30,13 @@ ASSUMPTIONS = ["'conflict' = two link definitions producing the same (section, o
 CASE_TIMEOUT = 120
 WALL = {"quick": 900, "thorough": 7200}
 REQUIRED = {"process_runs": 40, "cases_with_type_replacing_links": 80, "history_same_paths_other_content": 50, "relabel_runs": 500, "permute_runs": 200, "history_runs": 200, "repeat_runs": 200, "file_order_runs": 30,
-            "mixed_nrexcl_cases": 50, "fragment_cases": 20, "file_order_runs_unrestricted": 40, "termini_relabel_runs": 100, "termini_modified": 100}
+            "mixed_nrexcl_cases": 50, "fragment_cases": 20, "file_order_runs_unrestricted": 40, "termini_relabel_runs": 100, "termini_modified": 100, "non_edge_end_link_cases": 30}
 
 
 def plan(tier, seed):
     n = 900 if tier == "quick" else 20000
     return [["meta", i] for i in range(n)] + [["fileorder", i] for i in range(n // 6)] + [["termini", i] for i in range(n // 6)] + \
-        [["processes", i] for i in range(max(12, n // 60))]
+        [["processes", i] for i in range(max(12, n // 60))] + [["nonedge", i] for i in range(n // 15)]
 
 
 def setup():
@@ -194,6 +194,65 @@ def run_termini(cid, rng, workdir, res):
     return res
 
 
+def run_nonedge(cid, rng, workdir, res):
+    """a backbone link and an 'only at the chain end' link whose [ non-edges ] line names the backbone bond to the
+    neighbouring residue (the construction of the 'First SBB' links of the shipped martini3 amino acids): the two links
+    define different interactions, so neither the order of their definitions nor the node keys may change the result"""
+    na = rng.randint(2, 3)
+    L = ["[ moleculetype ]", "A 1", "[ atoms ]"]
+    for i in range(na):
+        L.append("%d %s 1 A %s %d 0.0 72.0" % (i + 1, rng.choice(["P1", "P2", "C1"]), "BB" if i == 0 else "SC%d" % i, i + 1))
+    L.append("[ bonds ]")
+    for i in range(1, na):
+        L.append("BB SC%d 1 0.3 1000" % i)
+    bb = ["[ link ]", 'resname "A"', "[ bonds ]", "BB +BB 1 0.400 3000"]
+    if rng.random() < 0.5:
+        ter = ["[ link ]", 'resname "A"', "[ angles ]", "SC1 BB +BB 2 %d 25" % rng.randint(91, 170), "[ non-edges ]", "BB -BB"]
+        end = "first"
+    else:
+        ter = ["[ link ]", 'resname "A"', "[ angles ]", "-BB BB SC1 2 %d 25" % rng.randint(91, 170), "[ non-edges ]", "BB +BB"]
+        end = "last"
+    block = "\n".join(L) + "\n"
+    n = rng.randint(3, 7)
+    graph = {"kind": "lin", "nodes": [{"key": i, "resname": "A", "resid": i + 1} for i in range(n)],
+             "edges": [(i, i + 1, None) for i in range(n - 1)]}
+    texts = {"bb_first.ff": block + "\n".join(bb + ter) + "\n", "end_first.ff": block + "\n".join(ter + bb) + "\n"}
+    for nm, t in texts.items():
+        with open(os.path.join(workdir, nm), "w") as fh:
+            fh.write(t)
+    RG.to_json(graph, os.path.join(workdir, "case.json"))
+    res["sig"] = sig_of([texts, n])
+    res["sample"] = {"layout": "chain-end link with a non-edge on the backbone bond", "end": end, "residues": n}
+    res["nontrivial"] = True
+    bump(res, "non_edge_end_link_cases")
+    outs = {}
+    for tag, ffile, gfile in (("backbone link first", "bb_first.ff", "case.json"), ("end link first", "end_first.ff", "case.json"),
+                              ("end link first, node keys reversed", "end_first.ff", "rev.json"),
+                              ("backbone link first, node keys reversed", "bb_first.ff", "rev.json")):
+        if gfile == "rev.json" and not os.path.exists(os.path.join(workdir, gfile)):
+            g2 = {"kind": "lin", "nodes": [dict(nd, key=n - 1 - nd["key"]) for nd in graph["nodes"]],
+                  "edges": [(n - 1 - a, n - 1 - b, lab) for a, b, lab in graph["edges"]]}
+            RG.to_json(g2, os.path.join(workdir, gfile))
+        case = {"files": [(ffile, texts[ffile])], "inpath": [ffile], "graph": graph, "descr": res["sample"]}
+        r, p_ = run(case, workdir, gfile, "o_%d.itp" % len(outs))
+        if r["status"] != "ok":
+            violation(res, "rejects-valid-input:nonedge:%s" % r.get("exc_type"), "%s: %s" % (tag, r["error"]), PC.witness(case))
+            return res
+        outs[tag] = canon(p_)
+    base_tag = "backbone link first"
+    for tag, o in outs.items():
+        if tag == base_tag:
+            continue
+        d = first_diff(outs[base_tag], o)
+        bump(res, "non_edge_outcomes_compared")
+        if d:
+            violation(res, "non-edges-judged-on-the-molecule-built-so-far", "the chain-end link (non-edge on the backbone bond, %s "
+                      "residue only) gives another result with '%s' than with '%s': %s" % (end, tag, base_tag, d),
+                      {"files": texts, "residues": n})
+            return res
+    return res
+
+
 PROCESS_RUNS = [(["martini3"], ["PEO:3", "PS:2"]), (["martini3"], ["PEO:4"]), (["martini3", "martini2"], ["PEO:3"]),
                 (["martini2", "martini3"], ["PS:3"]), (["2016H66"], ["PEO:3", "PS:2"]), (["martini3"], ["ALA:2", "GLY:2", "LYS:1"]),
                 (["parmbsc1"], ["DA5:1", "DC:2", "DG3:1"]), (["oplsaaLigParGen"], ["PEO:4"]), (["gromos53A6"], ["P3HT:3"])]
@@ -245,6 +304,8 @@ def run_case(cid, rng, workdir):
         return run_fileorder(cid, rng, workdir, res)
     if cid[0] == "termini":
         return run_termini(cid, rng, workdir, res)
+    if cid[0] == "nonedge":
+        return run_nonedge(cid, rng, workdir, res)
     neutral = rng.random() < 0.35
     kw = dict(nmin=2, nmax=7, max_links=4, link_opts={"p_remove": 0.05, "p_replace": 0.15, "p_edge": 0.15,
                                                       "linktypes": True, "p_nonedge": 0.0})
